@@ -343,6 +343,16 @@ VERIF_TARGET(c39_privbroadcast, nullptr, 40, 500,
     const unsigned nops = s.range<unsigned>(3, 24);
     for (unsigned op = 0; op < nops && !s.exhausted(); ++op) {
         unsigned sel = s.range<unsigned>(0, 99);
+        {
+            // steer towards complete flows: no point in opening a private connection when nothing is pending; prefer to continue a flow in progress
+            bool any_private = false;
+            for (auto& t : txs) any_private |= t.is_private;
+            if (sel >= 18 && sel < 38 && !any_private && !s.chance(40)) sel = 0;
+            bool conn_waiting = false, conn_pinged = false;
+            for (auto& x : pbs) if (!net.Disconnected(x.peer)) { conn_waiting |= x.announced >= 0 && x.requests == 0; conn_pinged |= x.ping_nonce.has_value(); }
+            if (conn_pinged && s.chance(120)) sel = 60;       // pong
+            else if (conn_waiting && s.chance(120)) sel = 40; // getdata
+        }
         if (sel < 18) { // private submission
             if (next_coin >= mature.size()) continue;
             auto in = mature[next_coin++];
